@@ -39,7 +39,7 @@ def valtok(v):
         return "inf"
     if f == -INF:
         return "-inf"
-    return ratstr(Fraction(v))
+    return ratstr(Fraction(f))      # exact: every value generated here is a double (or an integer below 2^53)
 
 
 def exact(tok):
@@ -167,6 +167,8 @@ class P(Prop):
         (M, "TV.C11.marker_and_ord", "AND mode, any scalar type with a total comparison: call succeeds and marker = 1 iff some tested non-NaN value exceeds its threshold"),
         (M, "TV.C11.marker_or_ord", "OR mode, same generality: marker = 1 iff every tested non-NaN value exceeds its threshold"),
         (M, "TV.C11.markers_each_ord", "segmentation() yields one marker per observation, each the marker of its row"),
+        (M, "TV.C11.marker_extra_thresholds", "more thresholds than tested features: the extra ones are never read"),
+        (M, "TV.C11.marker_index_error", "fewer thresholds (outside the domain): IndexError as soon as the feature at position len(thresholds) has a non-NaN value"),
         (M, "TV.C11.marker_and", "AND mode on exact rationals (finite doubles)"),
         (M, "TV.C11.marker_or", "OR mode on exact rationals (finite doubles)"),
         (M, "TV.C11.markers_each", "whole track on exact rationals"),
@@ -202,6 +204,7 @@ class P(Prop):
             "split: ALL 2^n marker vectors for n = 1..10 (quick) / 1..12 (thorough) on tracks whose observations carry unique tags; all marker "
             "vectors n = 1..6 (8) x one observation without elevation at every position; marker features holding values other than 0/1 "
             "(2, 0.5, NaN, 1.0, True); limit = 0 / 0.0 / default and limit > 0 (incl. a limit equal to a piece length) on lattice coordinates; "
+            "a virtual feature (x, y, z, idx) as the marker; a few tracks of 60..200 observations; feature cells holding numpy scalars; "
             "index lists (sorted, and a few unsorted / negative / out of range). segmentation: for 1..3 tested features and both modes every "
             "combination of {below, equal, above, NaN} per feature (as one track and as single-observation tracks), random dyadic values with "
             "NaN and +-inf, tested features given as a bare name or a list, thresholds as a bare number or a list, a feature tested twice, "
@@ -264,10 +267,12 @@ class P(Prop):
         pm = rng.choice([0.1, 0.3, 0.5, 0.8])
         return [(rng.choice(toks) if rng.random() < 0.15 else ("1" if rng.random() < pm else "0")) for _ in range(n)]
 
-    def rand_splitg(self, rng):
-        n = rng.randrange(1, 10)
+    def rand_splitg(self, rng, long=False):
+        n = rng.randrange(60, 200) if long else rng.randrange(1, 10)
         c = {"kind": "splitg", "vals": self.rand_marks(rng, n), "pts": self.rand_pts(rng, n),
              "limit": rng.choice(["default", "default", "0", "0.0"] + ([rng.choice(self.LIMITS)] * 3))}
+        if rng.random() < 0.12:
+            c["src"] = rng.choice(list(VIRTUAL) + ["idx"])      # split(track, "z"): a virtual feature as the marker
         tm = self.rand_times(rng, n)
         if tm:
             c["times"] = tm
@@ -311,6 +316,8 @@ class P(Prop):
                 out[-1]["env"] = self.rand_env(rng)
         for _ in range(1500 if quick else 20000):
             out.append(self.rand_splitg(rng))
+        for _ in range(6 if quick else 60):
+            out.append(self.rand_splitg(rng, long=True))
         for _ in range(400 if quick else 5000):
             out.append(self.rand_splitidx(rng))
         # grids
@@ -375,6 +382,8 @@ class P(Prop):
             env["tid"] = rng.choice([0, 1, "t", 42])
         if rng.random() < 0.3:
             env["base"] = rng.choice([[4201575.7, 189856.3, 4779066.0], [0.0, 0.0, 0.0]])
+        if rng.random() < 0.25:
+            env["numpy"] = True
         if rng.random() < 0.6:
             names = rng.sample(self.TEMP_NAMES, rng.randrange(1, 4))
             env["extra"] = [[nm, rng.choice(["0", "1", "2", "nan", "0.5", "-1"])] for nm in names]
@@ -486,7 +495,7 @@ class P(Prop):
         if k == "split":
             return len(case["m"]) >= 2 and "1" in case["m"]
         if k in ("splitv", "splitg"):
-            return any(VALS[v] == 1 for v in case["vals"])
+            return any(self.marks(case))
         if k == "splitidx":
             return len(case["idx"]) >= 2
         if k == "coll":
@@ -561,6 +570,9 @@ class P(Prop):
             t.addObs(self.Obs(self.ENU(coord(pts[i][0]), coord(pts[i][1]), coord(pts[i][2])), self.T.readUnixTime(times[i])))
         for nm, toks in self.table(case, n, offset):
             vals = [int(x) for x in toks] if nm == "tag" else [tokval(x) for x in toks]
+            if env.get("numpy") and nm != "tag":      # cells computed with numpy: np.float64 / np.int64 scalars
+                import numpy as np
+                vals = [v if isinstance(v, bool) else (np.int64(v) if isinstance(v, int) else np.float64(v)) for v in vals]
             t.createAnalyticalFeature(nm, vals)
         return t
 
@@ -612,7 +624,7 @@ class P(Prop):
         if k in ("split", "splitv", "splitg"):
             n = len(case["m"]) if k == "split" else len(case["vals"])
             t = self.make_track(case, n)
-            return self.split_and_read(t, "marker", case.get("limit", "default"))
+            return self.split_and_read(t, case.get("src", "marker"), case.get("limit", "default"))
         if k == "splitidx":
             t = self.make_track(case, len(case["pts"]))
             return self.split_and_read(t, list(case["idx"]), case.get("limit", "default"))
@@ -665,6 +677,11 @@ class P(Prop):
     def marks(self, case):
         if case["kind"] == "split":
             return [c == "1" for c in case["m"]]
+        src = case.get("src", "marker")
+        if src in VIRTUAL:          # the marker is a virtual feature: a coordinate equal to 1
+            return [coord(p[VIRTUAL.index(src)]) == 1 for p in case["pts"]]
+        if src == "idx":
+            return [i == 1 for i in range(len(case["vals"]))]
         return [VALS[v] == 1 for v in case["vals"]]
 
     @staticmethod
